@@ -206,8 +206,8 @@ partial def eval (env : Env) (g : G) (c : Nat) (e : E) : G × Out :=
           | (g, .error o) => (g, o))
        | (g, .error o) => (g, o))
   | .tmpl parts =>
-    -- the holes are evaluated left to right; the pieces are converted to text only when the template is joined at the end
-    -- (a later hole that mutates a container produced by an earlier hole is visible in the earlier hole's text)
+    -- the holes are evaluated left to right; each hole's value becomes text when the hole ends (a later hole that mutates a
+    -- container an earlier hole showed does not change what is already assembled)
     let rec goT (g : G) (l : List (Sum String E)) (acc : List (Sum String (Option Val))) : G × Out :=
       match l with
       | [] =>
@@ -224,7 +224,10 @@ partial def eval (env : Env) (g : G) (c : Nat) (e : E) : G × Out :=
       | .inl s :: r => goT g r (.inl s :: acc)
       | .inr h :: r =>
         (match eval { env with inTmpl := true } g c h with
-         | (g', .val v) => goT g' r (.inr v :: acc)
+         | (g', .val (some v)) =>
+           if (valToString g'.heap v).utf8ByteSize > maxStringLength then (g', .fail (.err "不能一次性创建过长的字符串"))
+           else goT g' r (.inr (some (.str (valToString g'.heap v))) :: acc)
+         | (g', .val none) => goT g' r (.inr none :: acc)
          | (g', o) => (g', o))
     goT g parts []
   | .dice times sides keepLH k dmin dmax =>
